@@ -166,6 +166,53 @@ def random_family(seed, n):
     return out
 
 
+def context_family(full=False):
+    """operator contexts, enumerated: every kind of atom (character, quoted string, class, ...) under every closure
+    operator, inside a group that is itself under every closure operator, with text before / after it inside the
+    group or an alternative beside it.  The NFA construction has a special case for almost each of these pairs
+    (mkopt / mkclos / mkposcl / mkrep on machines that begin or end with an epsilon state: quoted strings, groups)."""
+    c = P.chr_
+    atoms = [("chr", c(97)), ("str", P.str_([97, 98])), ("ccl", P.ccl([P.cb(97), P.cb(98)]))]
+    ops = [("star", P.star), ("plus", P.plus), ("opt", P.opt), ("r02", lambda a: P.rep(a, 0, 2))]
+    if full:
+        atoms += [("dot", P.dot()), ("grpstr", P.grp(P.str_([97, 98]))), ("str1", P.str_([97]))]
+        ops += [("r22", lambda a: P.rep(a, 2, 2)), ("r1u", lambda a: P.rep(a, 1, -1))]
+    x = c(99)
+    shapes = [lambda i, o: o(P.cat(i, x)), lambda i, o: o(P.grp(i)), lambda i, o: o(P.cat(x, i)), lambda i, o: o(P.alt(i, x))]
+    rules = []
+    for an, a in atoms:
+        for n1, o1 in ops:
+            for n2, o2 in ops:
+                for sh in shapes:
+                    rules.append((an, sh(o1(a), o2)))
+    out = []
+    per = 8
+    for k in range(0, len(rules), per):
+        chunk = rules[k:k + per]
+        rs = ruleset([rule(P.cat(h, c(107 + j))) for j, (_, h) in enumerate(chunk)] + [rule(P.alt(P.dot(), c(10)))],
+                     name="core-ctx-%s-%d" % (chunk[0][0], k // per))
+        rs["profile"] = "ctx"
+        out.append(rs)
+    return out
+
+
+def manysc_family():
+    """more start conditions than the generator's per-condition tables hold at first (40): exclusive ones declared
+    early and late, <<EOF>> rules on some, unscoped rules before and after them"""
+    L = P.lit
+    out = []
+    for n, xs in ((45, (3, 42, 44)), (41, (2, 41))):
+        scs = [("C%d" % i, i in xs) for i in range(2, n + 2)]
+        late = xs[-1]; mid = xs[1] if len(xs) > 2 else 40
+        rules = [rule(L("a")), rule(L("b"), scs=[xs[0]]), rule(L("c"), scs=[mid]), rule(L("d"), scs=[late, 5]), rule(L("e")),
+                 rule(L("f"), scs=[0]), rule(L("ab"), scs=[late - 1])]
+        rs = ruleset(rules, scs=scs, eofs=[[5], [mid], []], name="hw-many-sc-%d" % n,
+                     layout=[["rule", 1], ["eof", 1], ["rule", 2], ["rule", 3], ["rule", 4], ["rule", 5], ["rule", 6], ["rule", 7], ["eof", 2], ["eof", 3]])
+        rs["profile"] = "sc"
+        out.append(rs)
+    return out
+
+
 def handwritten():
     """transcriptions of shapes that matter (anchors, trailing context, start
     conditions, REJECT order), independent of any seed"""
